@@ -9,11 +9,11 @@ open RgVerif RgVerif.Matcher RgVerif.ReplaceSpec RgVerif.Replace RgVerif.Interp
 open RgVerif.Lemmas.ReplaceIter
 
 /-- the closure `replace_all` hands to `replace_with_captures_in_context`, as a function -/
-def replaceStep (names : List (Bytes × Nat)) (bytes : Bytes) (re : Nat) (tmpl : Bytes) :
+def replaceStep (names : List (Bytes × Nat)) (bytes : Bytes) (re : Nat) (atEnd : Bool) (tmpl : Bytes) :
     RState → Caps → RState × Bool :=
   fun st c =>
     let m := (c.get 0).getD ⟨0, 0⟩
-    if m.s ≥ re then (st, false)
+    if beyondRange re atEnd m.s then (st, false)
     else
       let dst1 := st.dst ++ slice bytes st.lastMatch m.s
       let exp := interpolate (envOf bytes names c) tmpl
@@ -21,52 +21,107 @@ def replaceStep (names : List (Bytes × Nat)) (bytes : Bytes) (re : Nat) (tmpl :
          spans := st.spans ++ [⟨dst1.length, dst1.length + exp.length⟩] }, true)
 
 theorem replace_unfold (capsAt : Nat → Option Caps) (names : List (Bytes × Nat))
-    (bytes : Bytes) (rs re : Nat) (tmpl : Bytes) :
-    replaceWithCapturesInContext capsAt names bytes rs re tmpl =
-      (let st := iterGo sp capsAt bytes.length (replaceStep names bytes re tmpl)
+    (bytes : Bytes) (rs re : Nat) (atEnd : Bool) (tmpl : Bytes) :
+    replaceWithCapturesInContext capsAt names bytes rs re atEnd tmpl =
+      (let st := iterGo sp capsAt bytes.length (replaceStep names bytes re atEnd tmpl)
                   (bytes.length + 2) rs none ⟨rs, [], []⟩
        { st with dst := st.dst ++ slice bytes st.lastMatch (min bytes.length re) }) := rfl
 
-theorem fold_spec (names : List (Bytes × Nat)) (bytes : Bytes) (re to : Nat) (tmpl : Bytes) :
+/-- the matches the printer keeps: those starting before `re`, or exactly at `re` when the range ends the
+haystack without a terminator -/
+def keep (re : Nat) (atEnd : Bool) (c : Caps) : Bool :=
+  decide ((sp c).s < re) || (atEnd && (sp c).s == re)
+
+theorem fold_spec (names : List (Bytes × Nat)) (bytes : Bytes) (re to : Nat) (atEnd : Bool) (tmpl : Bytes) :
     ∀ (ms : List Caps) (st : RState),
-      (foldUntil (replaceStep names bytes re tmpl) st ms).dst ++
-        slice bytes (foldUntil (replaceStep names bytes re tmpl) st ms).lastMatch to =
+      (foldUntil (replaceStep names bytes re atEnd tmpl) st ms).dst ++
+        slice bytes (foldUntil (replaceStep names bytes re atEnd tmpl) st ms).lastMatch to =
       st.dst ++ replaceAllSpec bytes (fun c => interpolate (envOf bytes names c) tmpl)
-        (ms.takeWhile (fun c => decide ((sp c).s < re))) st.lastMatch to := by
+        (ms.takeWhile (keep re atEnd)) st.lastMatch to := by
   intro ms
   induction ms with
   | nil => intro st; simp [foldUntil, replaceAllSpec, slice]
   | cons c ms ih =>
     intro st
-    by_cases hge : (sp c).s ≥ re
-    · have hlt : ¬ (sp c).s < re := by omega
-      have hstep : replaceStep names bytes re tmpl st c = (st, false) := by
-        unfold replaceStep; simp only [sp] at hge; simp [hge]
-      simp [foldUntil, hstep, List.takeWhile_cons, hlt, replaceAllSpec, slice]
-    · have hlt : (sp c).s < re := by omega
-      have hstep : (replaceStep names bytes re tmpl st c).2 = true := by
-        unfold replaceStep; simp only [sp] at hge; simp [hge]
-      simp only [foldUntil, hstep, ↓reduceIte, List.takeWhile_cons, hlt, decide_true]
+    by_cases hk : keep re atEnd c = true
+    · have hcond : beyondRange re atEnd (sp c).s = false := by
+        unfold keep at hk
+        unfold beyondRange
+        cases atEnd <;> simp at hk ⊢ <;> omega
+      have hstep : (replaceStep names bytes re atEnd tmpl st c).2 = true := by
+        unfold replaceStep; simp only [sp] at hcond; simp [hcond]
+      simp only [foldUntil, hstep, ↓reduceIte, List.takeWhile_cons, hk]
       rw [ih]
       unfold replaceStep
-      simp only [sp] at hge
-      simp [hge, replaceAllSpec, slice, sp, List.append_assoc]
+      simp only [sp] at hcond
+      simp [hcond, replaceAllSpec, slice, sp, List.append_assoc]
+    · have hcond : beyondRange re atEnd (sp c).s = true := by
+        unfold keep at hk
+        unfold beyondRange
+        cases atEnd <;> simp at hk ⊢ <;> omega
+      have hstep : replaceStep names bytes re atEnd tmpl st c = (st, false) := by
+        unfold replaceStep; simp only [sp] at hcond; simp [hcond]
+      simp [foldUntil, hstep, List.takeWhile_cons, hk, replaceAllSpec, slice]
 
 /-- **Replace-all, line level.** For every sane matcher, the replacement buffer built by the printer for
-the range `[rs, re)` of `bytes` is the regex crate's replace-all over the matches that start before `re`
+the range `[rs, re)` of `bytes` is the regex crate's replace-all over the matches the printer keeps
 (text between matches copied verbatim, each match replaced by the interpolated template). -/
 theorem replace_eq_spec (capsAt : Nat → Option Caps) (names : List (Bytes × Nat))
-    (bytes : Bytes) (rs re : Nat) (tmpl : Bytes) (hs : Sane capsAt bytes.length) :
-    (replaceWithCapturesInContext capsAt names bytes rs re tmpl).dst =
+    (bytes : Bytes) (rs re : Nat) (atEnd : Bool) (tmpl : Bytes) (hs : Sane capsAt bytes.length) :
+    (replaceWithCapturesInContext capsAt names bytes rs re atEnd tmpl).dst =
       replaceAllSpec bytes (fun c => interpolate (envOf bytes names c) tmpl)
-        ((allMatches capsAt bytes.length rs).takeWhile (fun c => decide ((sp c).s < re)))
+        ((allMatches capsAt bytes.length rs).takeWhile (keep re atEnd))
         rs (min bytes.length re) := by
   rw [replace_unfold]
   simp only
   rw [iterGo_eq_fold]
   have hc := collect_eq_allMatches hs rs
   rw [hc]
-  have := fold_spec names bytes re (min bytes.length re) tmpl (allMatches capsAt bytes.length rs) ⟨rs, [], []⟩
+  have := fold_spec names bytes re (min bytes.length re) atEnd tmpl (allMatches capsAt bytes.length rs) ⟨rs, [], []⟩
   simpa using this
+
+/-! ### `trim_line_terminator` and `is_at_unterminated_end` -/
+
+/-- Cutting the terminator either shortens the range, or leaves it when it does not end in the
+terminator byte. -/
+theorem trim_cases (t : LineTerm) (haystack : Bytes) (re : Nat) (_hre : re ≤ haystack.length) :
+    trimLineTerminator t haystack 0 re < re ∨
+    (trimLineTerminator t haystack 0 re = re ∧ t.isSuffix (haystack.take re) = false) := by
+  unfold trimLineTerminator
+  by_cases hsuf : t.isSuffix ((haystack.take re).drop 0) = true
+  · left
+    simp only [hsuf, ↓reduceIte]
+    have hre : 0 < re := by
+      cases re with
+      | zero => simp [LineTerm.isSuffix] at hsuf
+      | succ n => omega
+    split <;> omega
+  · right
+    simp only [hsuf, Bool.false_eq_true, ↓reduceIte, true_and]
+    simpa using hsuf
+
+theorem atEnd_of_unterminated (t : LineTerm) (haystack : Bytes) (rs re : Nat)
+    (hrange : rs ≤ re ∧ re ≤ haystack.length) (hns : t.isSuffix (haystack.take re) = false) :
+    isAtUnterminatedEnd t (haystack.take re) rs re = true := by
+  unfold isAtUnterminatedEnd
+  have hl : (haystack.take re).length = re := by rw [List.length_take]; omega
+  simp only [hl, beq_self_eq_true, hrange.1, decide_true, Bool.true_and, Bool.not_eq_eq_eq_not,
+    Bool.not_true]
+  unfold LineTerm.isSuffix slice at *
+  by_cases hrs : rs < re
+  · have h1 : ((haystack.take re).take re) = haystack.take re := by
+      rw [List.take_take]; simp
+    rw [h1, List.getLast?_drop]
+    have : ¬ ((haystack.take re).length ≤ rs) := by omega
+    simp only [this, ↓reduceIte]
+    exact hns
+  · have : rs = re := by omega
+    subst this
+    have h1 : ((haystack.take rs).take rs) = haystack.take rs := by
+      rw [List.take_take]; simp
+    rw [h1]
+    have : (haystack.take rs).drop rs = [] := by
+      apply List.drop_eq_nil_of_le; omega
+    rw [this]; simp
 
 end RgVerif.Lemmas.ReplaceFold
